@@ -19,6 +19,9 @@ def provided_now(out, key):
     return ground_truth(out.store, key)[0]
 
 
+STATEMENT_FORMS = {'w-2', '1098', '1099-int', '1099-div', '1099-g', '1099-r'}
+
+
 # ---------------------------------------------------------------- C01
 def demanded(out, tv):
     """D = required lines of every form the solver knows + every line read
@@ -160,8 +163,17 @@ def c03(out, tv):
             fresh_forms[name] = type(fo)(instance=fo.instance()) if fo.instance() else type(fo)()
         except BaseException:  # noqa
             pass
-    for key, val in fv.items():
-        ff = fresh_forms.get(key.split('.', 1)[0])
+    # (two clean copies: one walked in the order the lines were stored, one in the reverse order - what a definition remembers from
+    # a sibling line evaluated before it then differs)
+    fresh_rev = {}
+    for name, fo in (out.solver.forms.items() if out.solver is not None else ()):
+        try:
+            fresh_rev[name] = type(fo)(instance=fo.instance()) if fo.instance() else type(fo)()
+        except BaseException:  # noqa
+            pass
+    walk = [(k_, v_, fresh_forms) for k_, v_ in fv.items()] + [(k_, v_, fresh_rev) for k_, v_ in reversed(list(fv.items()))]
+    for key, val, pool_ in walk:
+        ff = pool_.get(key.split('.', 1)[0])
         if ff is None:
             continue
         fld2 = next((f for f in ff.fields() if f.name() == key), None)
@@ -281,6 +293,14 @@ def c04(out, tv):
             v.append(('lines-ne-closure', f'solution lines differ from the demand closure: missing {miss} extra {extra}'))
         if known_forms != forms_part:
             v.append(('forms-ne-closure', f'solver.forms {sorted(known_forms ^ forms_part)[:6]} differ from the forms demanded'))
+        # a statement (W-2, 1098, 1099-...) whose boxes a line of the return consulted takes part in the return: its copy is in the solution
+        # (only statements: a schedule's own questions are legitimately consulted without the schedule being filed - the N.C. Schedule A
+        # asks for federal Schedule A amounts of filers who do not itemize federally)
+        for r in tv.input_reads:
+            sec = r[0].split('.', 1)[0]
+            if sec.split(':')[0] in STATEMENT_FORMS and r[1] == 'value' and r[5] and sec not in got_forms:
+                v.append(('statement-consulted-but-absent', f'{r[5]} consulted {r[0]} (statement {sec}) and the solved return has no section for that statement'))
+                break
     else:
         if not got_lines <= exp_lower:
             v.append(('undemanded-line', f'partial solution holds undemanded lines {sorted(got_lines - exp_lower)[:5]}'))
